@@ -185,6 +185,13 @@ func arrayBoundSites(p *Program, fns []*ssa.Function) ([]arrayBoundSite, int) {
 				base, c := splitOffset(x.Index)
 				max, ok := maxUnderGuards(base, b)
 				if !ok {
+					// no guard: a loop that runs once per set bit of a value of known width
+					if w, isPop := popcountLoopBound(p, base, b); isPop {
+						judged++
+						if int64(w)-1+c > n-1 {
+							out = append(out, arrayBoundSite{f, x.Pos(), fmt.Sprintf("the loop runs once per set bit of a value that can have %d significant bits, so the index reaches %d; the array has %d elements", w, int64(w)-1+c, n)})
+						}
+					}
 					return
 				}
 				judged++
@@ -220,7 +227,7 @@ func controlArrayBound(fx *Program, r *Report, rule string) {
 	for _, tc := range []struct {
 		fn   string
 		want bool
-	}{{"SmallWrong", true}, {"SmallRight", false}, {"IndexWrong", true}, {"IndexRight", false}} {
+	}{{"SmallWrong", true}, {"SmallRight", false}, {"IndexWrong", true}, {"IndexRight", false}, {"PopWrong", true}, {"PopRight", false}} {
 		f := pkg.Func(tc.fn)
 		if f == nil {
 			r.Control(rule, "arraybound."+tc.fn, false, "function not found")
@@ -229,4 +236,221 @@ func controlArrayBound(fx *Program, r *Report, rule string) {
 		sites, judged := arrayBoundSites(fx, []*ssa.Function{f})
 		r.Control(rule, "arraybound."+tc.fn, judged > 0 && (len(sites) > 0) == tc.want, fmt.Sprintf("expected flagged=%v: %d access(es) judged, %d do not fit", tc.want, judged, len(sites)))
 	}
+}
+
+// ---- unguarded indexes in "one iteration per set bit" loops
+//
+//	for ; bm != 0; bm &= bm - 1 { idx[n] = ...; n++ }
+//
+// runs once per set bit of bm, so n stays below the number of significant bits bm can have. That width is
+// computed through the program: constants, masks, shifts, conversions, the library's Mask table, results
+// of analysed functions with their parameters bound, and parameters through all their call sites.
+
+type widthEnv struct {
+	bind   map[*ssa.Parameter]ssa.Value
+	parent *widthEnv
+}
+
+func typeWidth(p *Program, t types.Type) int {
+	if w := intBytes(t); w > 0 {
+		return int(w) * 8
+	}
+	return 64
+}
+
+func widthOf(p *Program, v ssa.Value, env *widthEnv, d int, busy map[ssa.Value]bool) int {
+	tw := typeWidth(p, v.Type())
+	if d > 12 || busy[v] {
+		return tw
+	}
+	min := func(a, b int) int {
+		if a < b {
+			return a
+		}
+		return b
+	}
+	max := func(a, b int) int {
+		if a > b {
+			return a
+		}
+		return b
+	}
+	switch x := v.(type) {
+	case *ssa.Const:
+		if c, ok := constInt(x); ok && c >= 0 {
+			return bitLen(c)
+		}
+	case *ssa.Convert:
+		if isIntType(x.X.Type()) && (!isSigned(x.X.Type()) || !isSigned(x.Type())) {
+			return min(widthOf(p, x.X, env, d+1, busy), tw)
+		}
+	case *ssa.BinOp:
+		switch x.Op {
+		case token.AND:
+			return min(widthOf(p, x.X, env, d+1, busy), widthOf(p, x.Y, env, d+1, busy))
+		case token.OR, token.XOR:
+			return min(tw, max(widthOf(p, x.X, env, d+1, busy), widthOf(p, x.Y, env, d+1, busy)))
+		case token.SHL:
+			if k, ok := constInt(x.Y); ok && k >= 0 {
+				return min(tw, widthOf(p, x.X, env, d+1, busy)+int(k))
+			}
+		case token.SHR:
+			if k, ok := constInt(x.Y); ok && k >= 0 && !isSigned(x.X.Type()) {
+				return max(0, widthOf(p, x.X, env, d+1, busy)-int(k))
+			}
+		case token.ADD:
+			return min(tw, max(widthOf(p, x.X, env, d+1, busy), widthOf(p, x.Y, env, d+1, busy))+1)
+		case token.AND_NOT:
+			return widthOf(p, x.X, env, d+1, busy)
+		}
+	case *ssa.Phi:
+		busy[v] = true
+		defer delete(busy, v)
+		w := 0
+		for _, ed := range x.Edges {
+			w = max(w, widthOf(p, ed, env, d+1, busy))
+		}
+		return min(tw, w)
+	case *ssa.Parameter:
+		for e := env; e != nil; e = e.parent {
+			if a, ok := e.bind[x]; ok {
+				return min(tw, widthOf(p, a, e.parent, d+1, busy))
+			}
+		}
+		// every call site in the analysed set
+		fn := x.Parent()
+		idx := -1
+		for i, q := range fn.Params {
+			if q == x {
+				idx = i
+			}
+		}
+		w, sites := 0, 0
+		for g := range p.allFuncs {
+			if g == nil || !inAnalysed(g) {
+				continue
+			}
+			for _, c := range callsIn(g) {
+				if calleeOf(c) == fn && idx >= 0 && idx < len(c.Common().Args) {
+					sites++
+					w = max(w, widthOf(p, c.Common().Args[idx], nil, d+1, busy))
+				}
+			}
+		}
+		if sites > 0 && fn.Object() != nil && !fn.Object().Exported() {
+			return min(tw, w)
+		}
+	case *ssa.UnOp:
+		if x.Op == token.MUL {
+			// bitmap.Mask[k]
+			if ia, ok := x.X.(*ssa.IndexAddr); ok {
+				if g, ok := ia.X.(*ssa.Global); ok && g.Name() == "Mask" && g.Pkg != nil && g.Pkg.Pkg.Path() == "github.com/openacid/low/bitmap" {
+					// the index: a constant, or a parameter bound to one
+					iv := ia.Index
+					for e := env; e != nil; e = e.parent {
+						if prm, isP := stripConv(iv).(*ssa.Parameter); isP {
+							if a, ok := e.bind[prm]; ok {
+								iv = a
+							}
+						}
+					}
+					if k, ok := constInt(stripConv(iv)); ok && k >= 0 && k <= 64 {
+						return int(k)
+					}
+				}
+			}
+		}
+	case *ssa.Call:
+		h := calleeOf(x)
+		if h != nil && inAnalysed(h) && len(h.Blocks) > 0 && !x.Call.IsInvoke() {
+			ne := &widthEnv{bind: map[*ssa.Parameter]ssa.Value{}, parent: env}
+			for i, prm := range h.Params {
+				if i < len(x.Call.Args) {
+					ne.bind[prm] = x.Call.Args[i]
+				}
+			}
+			busy[v] = true
+			defer delete(busy, v)
+			w := 0
+			for _, ret := range returnsOf(h) {
+				if len(ret.Results) != 1 {
+					return tw
+				}
+				w = max(w, widthOf(p, ret.Results[0], ne, d+1, busy))
+			}
+			return min(tw, w)
+		}
+	}
+	return tw
+}
+
+// popcountLoopBound: idx is the counter (phi 0, +1) of a loop that runs while some value x != 0 and
+// clears the lowest set bit of x in every iteration: returns the width of x's initial value.
+func popcountLoopBound(p *Program, idx ssa.Value, b *ssa.BasicBlock) (int, bool) {
+	ph, ok := stripConv(idx).(*ssa.Phi)
+	if !ok {
+		return 0, false
+	}
+	header := ph.Block()
+	okCounter := false
+	for i, ed := range ph.Edges {
+		if header.Dominates(header.Preds[i]) {
+			bo, ok := ed.(*ssa.BinOp)
+			if k, isK := int64(0), false; ok {
+				k, isK = constInt(bo.Y)
+				if bo.Op == token.ADD && bo.X == ssa.Value(ph) && isK && k == 1 {
+					okCounter = true
+				}
+			}
+		} else if k, isK := constInt(ed); !isK || k != 0 {
+			return 0, false
+		}
+	}
+	if !okCounter {
+		return 0, false
+	}
+	iff, ok := lastInstr(header).(*ssa.If)
+	if !ok {
+		return 0, false
+	}
+	cond, ok := iff.Cond.(*ssa.BinOp)
+	if !ok || cond.Op != token.NEQ {
+		return 0, false
+	}
+	var x *ssa.Phi
+	if k, isK := constInt(cond.Y); isK && k == 0 {
+		x, _ = cond.X.(*ssa.Phi)
+	}
+	if x == nil || x.Block() != header {
+		return 0, false
+	}
+	var init ssa.Value
+	for i, ed := range x.Edges {
+		if header.Dominates(header.Preds[i]) {
+			// x & (x - 1)
+			an, ok := ed.(*ssa.BinOp)
+			if !ok || an.Op != token.AND {
+				return 0, false
+			}
+			okStep := false
+			for _, pr := range [][2]ssa.Value{{an.X, an.Y}, {an.Y, an.X}} {
+				if pr[0] == ssa.Value(x) {
+					if sb, ok := pr[1].(*ssa.BinOp); ok && sb.Op == token.SUB && sb.X == ssa.Value(x) {
+						if k, isK := constInt(sb.Y); isK && k == 1 {
+							okStep = true
+						}
+					}
+				}
+			}
+			if !okStep {
+				return 0, false
+			}
+		} else {
+			init = ed
+		}
+	}
+	if init == nil {
+		return 0, false
+	}
+	return widthOf(p, init, nil, 0, map[ssa.Value]bool{}), true
 }
